@@ -80,6 +80,68 @@ def replay_hist(w, g, blocks, hist, tid):
         run.close()
 
 
+def lock_design(chk, pid):
+    """StoreLock at design level: the lock over the whole flush keeps every handed-over block; each tempting narrowing loses one."""
+    lc = {"Writers": {1, 2}, "Blocks": {1, 2, 3}, "LockScope": "whole", "MaxFlushes": 3}
+    inv = ["I_NoBlockLost", "I_FlushedMeansStored", "I_LockDiscipline", "I_NoSqlError"]
+    rl = tracecheck.model("StoreLock", "Spec", lc, workers=4, timeout=600, invariants=inv)
+    tlc.require_clean(rl, "StoreLock")
+    chk.add_tlc("StoreLock (2 writers, 3 blocks, <= 3 flushes, every interleaving of add / acquire / begin / commit / clear / release)", rl, constants=str(lc))
+    if rl.violated:
+        return machinery_failure(pid, "StoreLock violates %s" % rl.violated)
+    for scope, invs in (("copy", ["I_NoBlockLost"]), ("swap", ["I_NoSqlError"])):
+        rln = tracecheck.model("StoreLock", "Spec", dict(lc, LockScope=scope), workers=4, timeout=600, invariants=invs)
+        chk.add_tlc("StoreLock necessity run: LockScope = %s (the lock released during the disk write)" % scope, rln, expect_violation=invs[0])
+        if not rln.violated:
+            return machinery_failure(pid, "vacuity: StoreLock with LockScope=%s violates nothing" % scope)
+    return 0
+
+
+def two_writer_stage(chk, quick, rng, pid, cfg, keys):
+    """C09 / C12: the relay path and the miner share the store's write buffer -- forced two-writer schedules on a real BlockStore."""
+    from checks.ledger import RandomTree
+    rc_ = lock_design(chk, pid)
+    if rc_:
+        return rc_
+    lock_traces = []
+    for i in range(6 if quick else 60):
+        w = sk.World(cfg, keys, tag=b"tw%d" % i)
+        rec = ledger_drv.Recorder(w, 1, full=False, snapshots=False)
+        g = w.make_genesis()
+        rec.start(g)
+        rt = RandomTree(w, rec, rng, p_mut=0.0)
+        for _ in range(8):
+            rt.step()
+        order = [w.by_abs[a] for a in rt.stored[1:]]
+        run_ = store_drv.StoreRun(w, g)
+        try:
+            k = 0
+            while k < len(order):
+                run_.buffer(order[k])
+                k += 1
+                if k < len(order):
+                    (run_.flush_with_concurrent_flush if (k + i) % 2 else run_.flush_with_concurrent_add)(order[k])
+                    k += 1
+            run_.flush()
+            for lt in getattr(run_, "lock_traces", []):
+                lock_traces.append(dict(lt, id=len(lock_traces) + 1))
+        finally:
+            run_.close()
+    if not lock_traces:
+        return machinery_failure(pid, "no two-writer schedule was run")
+    vl, rlt = tracecheck.run("TraceStoreLock", lock_traces, {"Writers": {1, 2}, "Blocks": set(), "LockScope": "whole", "MaxFlushes": 99, "Prop": pid},
+                             ids=[t["id"] for t in lock_traces], workers=1, timeout=600)
+    chk.states += rlt.distinct
+    chk.traces_validated += len(lock_traces)
+    chk.extra["two_writer_schedules_on_the_store"] = len(lock_traces)
+    for t_id, (clause, line) in vl.items():
+        if clause != "ok":
+            chk.violation(clause, {"two_writer_schedule": lock_traces[t_id - 1]}, {"clause": clause})
+    for dft in tlc.tagged(rlt, "DRIFT"):
+        chk.model_drift("two-writer schedule %s step %s: %s" % tuple(dft[:3]))
+    return 0
+
+
 def run(pid, tier, replay=None):
     chk = Check(pid, tier)
     quick = tier != "thorough"
@@ -127,18 +189,9 @@ def run(pid, tier, replay=None):
             chk.case((name, json.dumps(hh)), nontrivial=sum(1 for s in hh if s["op"] != "buffer") >= 2)
         chk.sample({"universe": name, "behaviour": info[tid][1]})
 
-    # the buffer's lock with two writers (network thread + miner): design level, and the tempting "release the lock during disk I/O"
-    # refactoring as the necessity run
-    lc = {"Writers": {1, 2}, "Blocks": {1, 2, 3}, "LockScope": "whole", "MaxFlushes": 3}
-    rl = tracecheck.model("StoreLock", "Spec", lc, workers=4, timeout=600, invariants=["I_NoBlockLost", "I_FlushedMeansStored", "I_LockDiscipline"])
-    tlc.require_clean(rl, "StoreLock")
-    chk.add_tlc("StoreLock (2 writers, 3 blocks, <= 3 flushes, every interleaving of add / acquire / write / clear / release)", rl, constants=str(lc))
-    if rl.violated:
-        return machinery_failure(pid, "StoreLock violates %s" % rl.violated)
-    rln = tracecheck.model("StoreLock", "Spec", dict(lc, LockScope="copy"), workers=4, timeout=600, invariants=["I_NoBlockLost"])
-    chk.add_tlc("StoreLock necessity run: lock released during the disk write (must lose a block)", rln, expect_violation="I_NoBlockLost")
-    if not rln.violated:
-        return machinery_failure(pid, "vacuity: StoreLock with LockScope=copy does not lose a block")
+    rc_ = lock_design(chk, pid)
+    if rc_:
+        return rc_
     lock_traces = []
     # randomized trees (not from the model), random batching, some forks re-mining the same pending transactions
     from checks.ledger import RandomTree
@@ -160,8 +213,12 @@ def run(pid, tier, replay=None):
                 run_.buffer(order[k])
                 k += 1
                 x = rng.random()
-                if x < 0.25 and k < len(order):
+                if x < 0.2 and k < len(order):
                     run_.flush_with_concurrent_add(order[k])        # a second writer thread hands over the next block during the flush
+                    k += 1
+                    nconc += 1
+                elif x < 0.35 and k < len(order):
+                    run_.flush_with_concurrent_flush(order[k])      # ... hands it over and flushes, while the first flush's transaction is open
                     k += 1
                     nconc += 1
                 elif x < 0.55:
@@ -180,7 +237,7 @@ def run(pid, tier, replay=None):
 
     chk.extra["concurrent_hand_overs_during_a_flush"] = info.pop("concurrent_hand_overs", 0)
     if lock_traces:
-        vl, rlt = tracecheck.run("TraceStoreLock", lock_traces, {"Writers": {1, 2}, "Blocks": set(), "LockScope": "whole", "MaxFlushes": 99},
+        vl, rlt = tracecheck.run("TraceStoreLock", lock_traces, {"Writers": {1, 2}, "Blocks": set(), "LockScope": "whole", "MaxFlushes": 99, "Prop": pid},
                                  ids=[t["id"] for t in lock_traces], workers=1, timeout=600)
         chk.states += rlt.distinct
         chk.traces_validated += len(lock_traces)
